@@ -10,7 +10,25 @@ use proptest::prelude::*;
 use rateslib::dual::{Dual, Dual2, Gradient1, MathFuncs, Vars};
 use serde::{Deserialize, Serialize};
 
-pub const NAMES: [&str; 8] = ["a", "b", "c", "d", "e", "f", "g", "h"];
+/// The pool of variable names. It contains two pairs that differ in letter case only (a/A, b/B):
+/// names are case-sensitive identifiers.
+pub const NAMES: [&str; 8] = ["a", "b", "A", "d", "e", "B", "g", "h"];
+
+/// name of variable index i: the pool for i < 8, "w<i>" beyond it (wide variable lists)
+pub fn name_of(i: u8) -> String {
+    if (i as usize) < NAMES.len() {
+        NAMES[i as usize].to_string()
+    } else {
+        format!("w{}", i)
+    }
+}
+/// inverse of `name_of` (255 for a foreign name)
+pub fn index_of(name: &str) -> u8 {
+    if let Some(p) = NAMES.iter().position(|n| *n == name) {
+        return p as u8;
+    }
+    name.strip_prefix('w').and_then(|d| d.parse::<u8>().ok()).filter(|i| *i as usize >= NAMES.len()).unwrap_or(255)
+}
 
 /// How the leaf for variable i is constructed.
 #[derive(Clone, Debug, Serialize, Deserialize)]
